@@ -33,7 +33,7 @@ def generate(seed, tier, index):
     for j in range(nscripts):
         if j == 0:
             e = C.make_script_entry(rs, ru, rk, kind, SPEC_P,
-                                    {"steps": (2, 30), "allow_empty_ts": True, "p_ongrid": 0.2, "nreq": (1, 10), "p_tiny_interval": 0.03}, rich=rich)
+                                    {"steps": (2, 30), "allow_empty_ts": True, "p_ongrid": 0.2, "nreq": (1, 10), "p_tiny_interval": 0.03, "tauleap_fractional_none": 0.7}, rich=rich)
         else:
             # a second set-up on the same engine object: the sampler must start afresh
             e = C.make_script_entry(rs.sub(j), ru.sub(j), rk.sub(j), kind, SPEC_P,
